@@ -61,6 +61,8 @@ def check(case):
     feat = "+".join(feats) or "plain"
     cls = ["nt:" + x for x in feats] + ["trail:" + tk, "segwit" if rtx["segwit"] else "legacy"]
     cls += ["nt:" + x for x in gen_tx.features(rtx) if x not in ("segwit", "segwit-nonfinal-seq")]
+    if len(raw) > 1000000:
+        cls.append("nt:tx-bytes>1000000")
     if len(rtx["ins"]) == 1 and rtx["ins"][0]["txid"] == b"\x00" * 32 and rtx["ins"][0]["vout"] == 0xFFFFFFFF:
         cls.append("nt:coinbase-shaped-segwit" if rtx["segwit"] else "nt:coinbase-shaped-legacy")
     if tk == "same":
@@ -132,6 +134,12 @@ def cases(draw):
         tx["ins"][0]["vout"] = 0xFFFFFFFF
         if tx["segwit"]:
             tx["ins"][0]["witness"] = ["00" * 32]
+    huge = draw(st.integers(0, 119)) == 0
+    if huge:
+        # a segwit transaction whose complete serialisation exceeds 1,000,000 bytes (stripped size and weight stay small)
+        tx["segwit"] = True
+        seedb = draw(st.binary(min_size=2, max_size=4)).hex()
+        tx["ins"][0]["witness"] = [f"R65536:{seedb}"] * draw(st.sampled_from([16, 17, 33]))
     tk = draw(st.sampled_from(["none", "byte", "byte", "substr", "substr", "prefix", "random", "tx2", "same"]))
     trail = {"kind": tk}
     if tk == "byte":
@@ -146,7 +154,7 @@ def cases(draw):
     elif tk == "tx2":
         trail["tx"] = draw(gen_tx.tx_case("small", max_io=2))
     case = {"tx": tx, "trail": trail, "prior": draw(st.integers(0, 3)) == 0}
-    if draw(st.integers(0, 2)) == 0:
+    if huge or draw(st.integers(0, 2)) == 0:
         n_other = draw(st.integers(0, 4))
         case["block"] = {
             "others": [draw(gen_tx.tx_case("small", max_io=2)) for _ in range(n_other)],
@@ -164,7 +172,7 @@ def _targets(tier):
             check,
             strategy=lambda tier: cases(),
             budget={"quick": 6000, "thorough": 200000},
-            required=["nt:segwit-nonfinal-seq", "nt:trail-1byte-in-tx", "nt:trail-same-tx", "nt:in-block", "nt:block-dup-tx", "nt:trail-in-tx", "nt:coinbase-shaped-segwit", "nt:coinbase-shaped-legacy", "nt:after-related-tx", "nt:script>=253", "nt:wit-item>=253", "nt:wit-item-3000..65533", "nt:n_in>=253", "nt:script>=65536"],
+            required=["nt:segwit-nonfinal-seq", "nt:trail-1byte-in-tx", "nt:trail-same-tx", "nt:in-block", "nt:block-dup-tx", "nt:trail-in-tx", "nt:coinbase-shaped-segwit", "nt:coinbase-shaped-legacy", "nt:after-related-tx", "nt:script>=253", "nt:wit-item>=253", "nt:wit-item-3000..65533", "nt:n_in>=253", "nt:script>=65536", "nt:tx-bytes>1000000"],
         )
     ]
 
